@@ -7,6 +7,7 @@ use std::io::Write;
 pub mod util;
 pub mod wire;
 pub mod bus;
+pub mod authrig;
 pub mod session;
 pub mod sessgen;
 mod c03;
@@ -17,11 +18,12 @@ mod c02;
 mod c06;
 mod c07;
 mod c08;
+mod c10;
 mod c11;
 mod c12;
 pub mod units;
 mod c13;
-mod c17;
+pub mod c17;
 
 pub struct Opts {
     pub tier_thorough: bool,
@@ -68,6 +70,7 @@ fn main() {
         "c06" => (c06::gen, c06::exec),
         "c07" => (c07::gen, c07::exec),
         "c08" => (c08::gen, c08::exec),
+        "c10" => (c10::gen, c10::exec),
         "c11" => (c11::gen, c11::exec),
         "c12" => (c12::gen, c12::exec),
         "c13" => (c13::gen, c13::exec),
